@@ -4,6 +4,7 @@ import (
 	"go/ast"
 	"go/token"
 	"go/types"
+	"strings"
 
 	"gnetlint/core"
 	"gnetlint/flow"
@@ -169,5 +170,219 @@ func runC17_5(c *core.Ctx) {
 			}
 			return true
 		})
+	}
+}
+
+func init() {
+	register(&core.Rule{ID: "C17.6", Prop: "C17", MinSites: 8,
+		Desc: "a connection owns the zone strings it recycles: every net.Addr handed to newStreamConn/newUDPConn is built by gnet for this connection (socket.SockaddrTo*, or a module function that copies the zone with strings.Clone) or is the listener's shared address (which release() never recycles on a server loop) – never the LocalAddr()/RemoteAddr() of a foreign net.Conn, whose zone string belongs to package net's interface cache",
+		Run: runC17_6})
+}
+
+// ownsZone: callee is a module function returning net.Addr in which every TCPAddr/UDPAddr literal takes its
+// Zone from strings.Clone(…) or ip6ZoneToString(…).
+func ownsZone(c *core.Ctx, callee *types.Func) bool {
+	f := fnOf(c, callee)
+	if f == nil || f.Decl.Body == nil {
+		return false
+	}
+	lits, good := 0, 0
+	ast.Inspect(f.Decl.Body, func(n ast.Node) bool {
+		cl, ok := n.(*ast.CompositeLit)
+		if !ok {
+			return true
+		}
+		t := f.Info.TypeOf(cl)
+		if t == nil || !(strings.HasSuffix(t.String(), "net.TCPAddr") || strings.HasSuffix(t.String(), "net.UDPAddr")) {
+			return true
+		}
+		lits++
+		for _, el := range cl.Elts {
+			kv, ok := el.(*ast.KeyValueExpr)
+			if !ok {
+				continue
+			}
+			if id, ok := kv.Key.(*ast.Ident); ok && id.Name == "Zone" {
+				if call, ok := ast.Unparen(kv.Value).(*ast.CallExpr); ok {
+					if flow.IsPkgFunc(f.Info, call, "strings", "Clone") {
+						good++
+					} else if cf := flow.CalleeFunc(f.Info, call); cf != nil && cf.Name() == "ip6ZoneToString" {
+						good++
+					}
+				}
+			}
+		}
+		return true
+	})
+	return lits > 0 && lits == good
+}
+
+func runC17_6(c *core.Ctx) {
+	v := vocabOf(c)
+	if v == nil {
+		return
+	}
+	addrT := c.P.ExtObject("net", "Addr")
+	if !c.Need("net.Addr", addrT) {
+		return
+	}
+	for _, f := range v.funcs {
+		if f.Decl.Body == nil {
+			continue
+		}
+		k := 0
+		for _, call := range callsIn(f.Decl.Body, true) {
+			cf := flow.CalleeFunc(f.Info, call)
+			if cf == nil || v.byObj[cf] == nil || !(cf.Name() == "newStreamConn" || cf.Name() == "newUDPConn") {
+				continue
+			}
+			sig := cf.Type().(*types.Signature)
+			if len(call.Args) > 0 {
+				if tv, ok := f.Info.Types[call.Args[0]]; ok && tv.Value != nil && tv.Value.String() == `"unix"` {
+					continue // unix-domain addresses carry no zone
+				}
+			}
+			for i, arg := range call.Args {
+				if i >= sig.Params().Len() || !types.Identical(sig.Params().At(i).Type(), addrT.Type()) {
+					continue
+				}
+				k++
+				construct := cf.Name() + " address argument #" + itoa(k) + " " + sig.Params().At(i).Name()
+				verdict, why := classifyAddr(c, v, f, arg, 0)
+				c.Check(verdict, f.Name, construct, arg.Pos(), why,
+					exprStr(arg)+" is handed to the connection as its "+sig.Params().At(i).Name()+": "+why+". conn.release() gives the zone bytes of that address to the byte pool, so the next small allocation overwrites a string that package net (its interface-name cache), other connections and the application still use")
+			}
+		}
+	}
+}
+
+func classifyAddr(c *core.Ctx, v *vocab, f *fn, e ast.Expr, depth int) (bool, string) {
+	e = ast.Unparen(e)
+	switch x := e.(type) {
+	case *ast.CallExpr:
+		cf := flow.CalleeFunc(f.Info, x)
+		if cf == nil || cf.Pkg() == nil {
+			return false, "a value of unknown origin"
+		}
+		if strings.HasSuffix(cf.Pkg().Path(), "/pkg/socket") && strings.HasPrefix(cf.Name(), "SockaddrTo") {
+			return true, "built from the sockaddr of this connection"
+		}
+		if isModulePkg(cf.Pkg().Path()) && ownsZone(c, cf) {
+			return true, "copied with its own zone string by " + cf.Name()
+		}
+		if cf.Name() == "LocalAddr" || cf.Name() == "RemoteAddr" {
+			return false, "the address object of a foreign net.Conn, whose Zone string is shared with package net"
+		}
+		return false, "the result of " + cf.Name() + ", which is not known to give the connection a zone string of its own"
+	case *ast.SelectorExpr:
+		if fl := flow.FieldOf(f.Info, x); fl != nil && fl.Name() == "addr" {
+			return true, "the listener's shared address (not recycled on a server loop)"
+		}
+	case *ast.Ident:
+		if flow.IsNil(f.Info, x) {
+			return true, "nil"
+		}
+		if o, ok := f.Info.Uses[x].(*types.Var); ok && depth < 3 {
+			// single-assignment local
+			var rhs ast.Expr
+			n := 0
+			ast.Inspect(f.Decl.Body, func(m ast.Node) bool {
+				if as, ok := m.(*ast.AssignStmt); ok && len(as.Lhs) == len(as.Rhs) {
+					for i, l := range as.Lhs {
+						if flow.ObjOf(f.Info, l) == types.Object(o) {
+							n++
+							rhs = as.Rhs[i]
+						}
+					}
+				}
+				return true
+			})
+			if n == 1 {
+				return classifyAddr(c, v, f, rhs, depth+1)
+			}
+		}
+	}
+	return false, "a value of unknown origin"
+}
+
+func init() {
+	register(&core.Rule{ID: "C17.7", Prop: "C17", MinSites: 2,
+		Desc: "release() recycles the zone of the LOCAL address only where len(c.loop.listeners) == 0 is established (a client loop, where the local address was copied for this connection); on a server loop the local address is the listener's, shared by every connection it accepted",
+		Run: runC17_7})
+}
+
+func runC17_7(c *core.Ctx) {
+	f := getFn(c, "", "conn.release")
+	localF := c.P.Field("", "conn", "localAddr")
+	listenersF := c.P.Field("", "eventloop", "listeners")
+	if f == nil || !c.Need("conn.localAddr", localF) || !c.Need("eventloop.listeners", listenersF) {
+		return
+	}
+	// variables bound by `addr, ok := c.localAddr.(*net.XAddr)`
+	local := map[types.Object]bool{}
+	ast.Inspect(f.Decl.Body, func(n ast.Node) bool {
+		if as, ok := n.(*ast.AssignStmt); ok && len(as.Rhs) == 1 {
+			if ta, ok := ast.Unparen(as.Rhs[0]).(*ast.TypeAssertExpr); ok && flow.FieldOf(f.Info, ta.X) == localF {
+				if o := flow.ObjOf(f.Info, as.Lhs[0]); o != nil {
+					local[o] = true
+				}
+			}
+		}
+		return true
+	})
+	const fClient = 1
+	p := &flow.Problem{Must: true}
+	p.Edge = func(e *flow.Edge, in uint64) uint64 {
+		if e.Cond == nil || e.Tag != nil {
+			return in
+		}
+		x, y, op, ok := flow.Cmp(e.Cond)
+		if !ok {
+			return in
+		}
+		lc, isCall := ast.Unparen(x).(*ast.CallExpr)
+		if !isCall || len(lc.Args) != 1 {
+			return in
+		}
+		if id, ok := lc.Fun.(*ast.Ident); !ok || id.Name != "len" || flow.FieldOf(f.Info, lc.Args[0]) != listenersF {
+			return in
+		}
+		tv, ok := f.Info.Types[y]
+		if !ok || tv.Value == nil || tv.Value.String() != "0" {
+			return in
+		}
+		if (op == token.EQL && e.Sense) || (op == token.GTR && !e.Sense) || (op == token.LEQ && e.Sense) {
+			in |= fClient
+		}
+		return in
+	}
+	sol := f.Graph().Solve(p)
+	k := 0
+	sol.Walk(func(b *flow.Block, i int, n ast.Node, before uint64) {
+		for _, call := range flow.Calls(n) {
+			arg, kind := poolPut(f, call)
+			if arg == nil || kind != "byteslice" {
+				continue
+			}
+			isLocal := false
+			ast.Inspect(arg, func(m ast.Node) bool {
+				if id, ok := m.(*ast.Ident); ok && local[f.Info.Uses[id]] {
+					isLocal = true
+				}
+				if sel, ok := m.(*ast.SelectorExpr); ok && flow.FieldOf(f.Info, sel) == localF {
+					isLocal = true
+				}
+				return true
+			})
+			if !isLocal {
+				continue
+			}
+			k++
+			c.Check(before&fClient != 0, f.Name, "local zone recycled #"+itoa(k)+" only on a client loop", call.Pos(), "dominated by len(c.loop.listeners) == 0",
+				"the zone bytes of the connection's local address are given to the byte pool where the loop is not known to be a client loop: on a server that address is the listener's own, shared by all its connections, and the next small allocation overwrites the zone of every LocalAddr()")
+		}
+	})
+	if k == 0 {
+		c.Ok(f.Name, "local zone recycled", f.Decl.Pos(), "release() does not recycle local address zones")
 	}
 }
